@@ -652,3 +652,21 @@ Proof.
   split; [exact V|]. split; [exact A|].
   destruct (wire_roundtrip n [] [] V A) as [_ R]. cbn [app length] in R. rewrite app_nil_r in R. exact R.
 Qed.
+
+(* the "consumed" statements as corollaries *)
+Lemma consumed_plain (n : name) (pre post : list Z) :
+  Valid n -> is_absolute n = true ->
+  exists m, from_wire (pre ++ wire_labels false n ++ post) (length pre) = Ok (m, length (wire_labels false n)).
+Proof. intros V A. exists n. exact (proj2 (wire_roundtrip n pre post V A)). Qed.
+
+Lemma consumed_compressed n origin canon file t file' t' labels :
+  Forall (fun c => 0 <= c) file -> (forall k v, In (k, v) t -> Valid k) ->
+  TableSoundW file t -> Valid n -> full_name n origin = Ok labels ->
+  to_wire_compress n origin canon file t = Ok (file', t') ->
+  exists m, from_wire file' (length file) = Ok (m, (length file' - length file)%nat).
+Proof.
+  intros NN VK TS V F H.
+  destruct (compress_sound_W n origin canon file t file' t' labels NN VK TS V F H)
+    as (em & m & -> & _ & _ & FW & _).
+  exists m. rewrite FW. rewrite app_length. f_equal. f_equal. lia.
+Qed.
